@@ -99,6 +99,10 @@ def main():
     with open(os.path.join(dst, "meta.json"), "w") as fh:
         json.dump(meta_out, fh, indent=1)
     shutil.rmtree(scratch, ignore_errors=True)
+    import glob, hashlib
+    alt = hashlib.sha1(scratch.encode()).hexdigest()[:8]
+    for f in glob.glob(os.path.join(ROOT, "build", "bin", "*-%s.test" % alt)) + glob.glob(os.path.join(ROOT, "build", "gen", "overlay-*-%s.json" % alt)):
+        os.remove(f)
     print(json.dumps({k: out[k] for k in ("builds", "demo_passes_without_change", "demo_fails_with_change", "caught")}))
 
 
